@@ -46,7 +46,7 @@ func runC13(c *core.Ctx) {
 	c.Rule("R13.2", "recovery sends the retry marker on every channel with replies outstanding, closes every channel of the batch, reconnects, then signals the reader - in that order; reconnect leaves its dial loop only after a successful dial", 4)
 	c.Rule("R13.3", "callers of the pool retry in a bounded loop and never hand the retry marker to their own caller", 4)
 
-	rd := c.P.Func(relBatched, "(*conn).reader")
+	rd := findFunc(c, relBatched, "(*conn).reader", rolePoolReader)
 	if rd == nil {
 		c.Undecided("R13.1", "batched.(*conn).reader", "-", "reader not found")
 	} else {
@@ -247,7 +247,7 @@ func exitLabel(c *core.Ctx, b *ssa.BasicBlock) string {
 }
 
 func checkRecovery(c *core.Ctx) {
-	fn := c.P.Func(relBatched, "(*conn).recoveryMonitor")
+	fn := findFunc(c, relBatched, "(*conn).recoveryMonitor", rolePoolRecovery)
 	if fn == nil {
 		c.Undecided("R13.2", "batched.(*conn).recoveryMonitor", "-", "recovery goroutine not found")
 		return
@@ -325,7 +325,7 @@ func checkRecovery(c *core.Ctx) {
 		"recovery steps are out of order: the reader is released before the connection is re-established, or the reconnect happens before the callers were told")
 
 	// reconnect: leaves the dial loop only on success
-	rc := c.P.Func(relBatched, "(*conn).reconnect")
+	rc := findFunc(c, relBatched, "(*conn).reconnect", rolePoolReconnect)
 	if rc == nil {
 		c.Undecided("R13.2", "batched.(*conn).reconnect", "-", "not found")
 		return
